@@ -13,7 +13,8 @@ harness/c15: TestReplayRoute, TestReplayRepl, TestRecordRoutes, TestRecordTrace.
 """
 import json
 import os
-import shutil
+import threading
+import time
 
 import verif
 
@@ -40,12 +41,8 @@ META = {
 W = int(os.environ.get("VERIF_C15_WORKERS", "8"))
 PROPS = ("LegalEdges", "LockRespected", "PromotionTiming", "DeletionGuard", "LockOnlyByEditor", "RefusedIsNoWrite", "TypeOK")
 
-ROUTE = {  # cfg -> (NK, gaps)
-    "MC_route_quick": (7, [3]), "MC_route_spaced": (7, [0, 2, 4, 6]), "MC_route_thorough": (7, [3]),
-}
-REPL = {  # cfg -> (mode, NP)
-    "MC_repl_quick": ("repl", 2), "MC_multi_quick": ("multi", 1),
-    "MC_repl_thorough": ("repl", 2), "MC_multi_thorough": ("multi", 1),
+GEN = {  # cfg -> (NK, gaps) of the route universe it enumerates
+    "MC_gen_quick": (6, [3]), "MC_gen_thorough": (7, [3]), "MC_gen_spaced": (7, [0, 2, 4, 6]), "MC_gen_multi2": (3, [1]),
 }
 
 
@@ -120,18 +117,35 @@ def validate_traces(ctx, files, label):
 
 
 def record_and_validate(ctx, env, label):
-    d = ctx.path("traces_%s_%d" % (label, ctx._nrun), "x")
-    d = os.path.dirname(d)
+    """Run the recorder (random-ring lookups + lifecycler/editor traces), let TLC decide both."""
+    d = os.path.dirname(ctx.path("rec_%s_%d" % (label, ctx._nrun), "x"))
     e = dict(env)
     e["VERIF_TRACE_DIR"] = d
-    res = ctx.run_harness("c15", "^TestRecordTrace$", env=e, timeout=1500)
+    e["VERIF_CASES"] = os.path.join(d, "cases.ndjson")
+    res = ctx.run_harness("c15", "^TestRecord$", env=e, timeout=1500)
     if res.get("fatal"):
-        incon("trace recorder: " + res["fatal"])
-    files = (res.get("extra") or {}).get("trace_files") or []
-    if not files:
-        incon("trace recorder wrote no trace")
-    accepted, rejected = validate_traces(ctx, files, label)
-    return res, accepted, rejected
+        incon("recorder: " + res["fatal"])
+    extra = res.get("extra") or {}
+    files = extra.pop("trace_files", None) or []
+    rings = int(extra.get("recorded_rings", 0))
+    if not files or not rings:
+        incon("recorder wrote no trace / no rings")
+    rejected = []
+    # random rings of 1..20 partitions with generated tokens: decided by the specification
+    r = ctx.tlc("partitionring", "PartitionRingCheck", extra_files={e["VERIF_CASES"]: "cases.ndjson"}, workers=min(W, 4),
+                deadlock=False, timeout=1500, count=False)
+    ctx.require_tlc_ok(r, "PartitionRingCheck")
+    verdicts = verif.read_ndjson(r.out_path)
+    if len(verdicts) != rings:
+        incon("PartitionRingCheck decided %d of %d recorded rings" % (len(verdicts), rings))
+    for v in verdicts:
+        if not v["ok"]:
+            b = (v["bad"] or [{}])[0]
+            rejected.append({"sig": "record-route:%s" % b.get("what", "grouping"),
+                             "case": {"ring": v["id"], "tokens": v["tokens"], "active": v["active"], "seed": ctx.seed},
+                             "got": v["bad"][:4], "want": "the specification's ActivePartition / KeysByPartition (field want)"})
+    accepted, rej = validate_traces(ctx, files, label)
+    return res, rings + accepted, rejected + rej
 
 
 def run(ctx):
@@ -146,88 +160,75 @@ def run(ctx):
                        "events happen on whole seconds of the synctest bubble clock",
                        "the in-memory consul store (no merge of concurrent writers, no tombstones)"]
     ctx.exhaustive = True
-    selftest = os.environ.get("VERIF_C15_SELFTEST", "")   # corrupt-route | corrupt-repl | corrupt-record | corrupt-trace | drop-trace
+    selftest = os.environ.get("VERIF_C15_SELFTEST", "")
+    stages = set(os.environ.get("VERIF_C15_STAGES", "sm,gen,record").split(","))   # development aid only   # corrupt-route | corrupt-repl | corrupt-record | corrupt-trace | drop-trace
 
-    # 1. the property on the state machine, exhaustively
-    sm = ["MC_sm_quick"] if quick else ["MC_sm_quick", "MC_sm_full2", "MC_sm_three", "MC_sm_multi"]
-    for cfg in sm:
-        r = ctx.tlc("partitionring", "MC_PartitionRing", cfg=cfg + ".cfg", workers=W, timeout=2400 if not quick else 600,
-                    coverage=not quick and cfg == "MC_sm_quick", deadlock=False)
-        ctx.require_tlc_ok(r, cfg)
-        if r.coverage_zero:
-            acts = [a for a in r.coverage_zero if a not in ("Init",)]
-            if acts:
-                incon("%s: actions never taken: %s" % (cfg, acts))
+    # 1. the property on the state machine, exhaustively (in the quick tier concurrently with the bindings)
+    def check_sm(cfgs):
+        for cfg in cfgs:
+            r = ctx.tlc("partitionring", "MC_PartitionRing", cfg=cfg + ".cfg", workers=W, timeout=2400 if not quick else 900,
+                        coverage=(not quick and cfg == "MC_sm_cov"), deadlock=False)
+            ctx.require_tlc_ok(r, cfg)
+            if r.coverage_zero:
+                incon("%s: actions never taken: %s" % (cfg, r.coverage_zero))
 
-    # 2. routing: TLC enumerates the rings, proves RoutingTotal, the harness replays every ring
-    for cfg in (["MC_route_quick", "MC_route_spaced"] if quick else ["MC_route_thorough", "MC_route_spaced", "MC_route_quick"]):
-        nk, gaps = ROUTE[cfg]
+    sm_thread, sm_box = None, {}
+    if "sm" not in stages:
+        pass
+    elif quick:
+        def bg():
+            try:
+                check_sm(["MC_sm_quick"])
+            except BaseException as ex:  # re-raised in the main thread
+                sm_box["exc"] = ex
+        sm_thread = threading.Thread(target=bg)
+        sm_thread.start()
+        time.sleep(1.0)
+    else:
+        check_sm(["MC_sm_cov", "MC_sm_full2", "MC_sm_three", "MC_sm_multi"])
+
+    # 2. pure part, spec -> code: TLC enumerates rings and owner/instance-ring combinations, proves RoutingTotal /
+    #    ReplExact / MultiSound on each and emits the expected outputs; the harness replays every case
+    for cfg in ([] if "gen" not in stages else ["MC_gen_quick"] if quick else ["MC_gen_thorough", "MC_gen_spaced", "MC_gen_multi2", "MC_gen_quick"]):
+        nk, gaps = GEN[cfg]
         r = ctx.tlc("partitionring", "PartitionRingGen", cfg=cfg + ".cfg", workers=W, timeout=1500, deadlock=False)
         ctx.require_tlc_ok(r, cfg)
         if r.emitted == 0:
             incon("%s emitted no cases" % cfg)
-        env = {"VERIF_IN": r.out_path, "VERIF_NK": nk, "VERIF_GAPS": json.dumps(gaps)}
-        if selftest == "corrupt-route":
-            env["VERIF_CORRUPT"] = 1 + r.emitted // 2
-        res = ctx.run_harness("c15", "^TestReplayRoute$", env=env, timeout=1500)
+        env = {"VERIF_IN": r.out_path, "VERIF_NK": nk, "VERIF_GAPS": json.dumps(gaps), "VERIF_T": 2}
+        if selftest == "corrupt-expected" and cfg in ("MC_gen_quick", "MC_gen_thorough"):
+            env["VERIF_CORRUPT"] = int(os.environ.get("VERIF_C15_CORRUPT_AT", 1 + r.emitted // 2))
+        res = ctx.run_harness("c15", "^TestReplay$", env=env, timeout=1500)
         if res.get("cases") != r.emitted:
             incon("%s: harness replayed %s of %d cases" % (cfg, res.get("cases"), r.emitted))
         ctx.absorb(res, cfg)
 
-    # 3. replication sets
-    for cfg in (["MC_repl_quick", "MC_multi_quick"] if quick else ["MC_repl_thorough", "MC_multi_thorough"]):
-        mode, np_ = REPL[cfg]
-        r = ctx.tlc("partitionring", "PartitionRingGen", cfg=cfg + ".cfg", workers=W, timeout=1500, deadlock=False)
-        ctx.require_tlc_ok(r, cfg)
-        if r.emitted == 0:
-            incon("%s emitted no cases" % cfg)
-        env = {"VERIF_IN": r.out_path, "VERIF_MODE": mode, "VERIF_NP": np_, "VERIF_T": 2}
-        if selftest == "corrupt-repl":
-            env["VERIF_CORRUPT"] = 1 + r.emitted // 2
-        res = ctx.run_harness("c15", "^TestReplayRepl$", env=env, timeout=1500)
-        if res.get("cases") != r.emitted:
-            incon("%s: harness replayed %s of %d cases" % (cfg, res.get("cases"), r.emitted))
-        ctx.absorb(res, cfg)
-
-    # 4. random rings of 1..20 partitions with generated tokens: recorded from the code, decided by the specification
-    cases = ctx.path("routes", "cases.ndjson")
-    n = 40 if quick else 200
-    env = {"VERIF_CASES": cases, "VERIF_N": n}
-    if selftest == "corrupt-record":
-        env["VERIF_CORRUPT"] = 7
-    res = ctx.run_harness("c15", "^TestRecordRoutes$", env=env, timeout=900)
-    ctx.absorb(res, "record-routes")
-    r = ctx.tlc("partitionring", "PartitionRingCheck", extra_files={cases: "cases.ndjson"}, workers=W, deadlock=False, timeout=1500, count=False)
-    ctx.require_tlc_ok(r, "PartitionRingCheck")
-    verdicts = verif.read_ndjson(r.out_path)
-    if len(verdicts) != n:
-        incon("PartitionRingCheck decided %d of %d recorded rings" % (len(verdicts), n))
-    for v in verdicts:
-        if not v["ok"]:
-            b = (v["bad"] or [{}])[0]
-            ctx.disagreement({"sig": "record-route:%s" % b.get("what", "grouping"), "case": {"ring": v["id"], "tokens": v["tokens"], "active": v["active"]},
-                              "got": v["bad"][:4], "want": "the specification's ActivePartition / KeysByPartition (field want)"}, "record-routes")
-
-    # 5. the state machine: every CAS of real lifecyclers + editor validated against the specification
-    env = {"VERIF_TAIL": 2, "VERIF_PROFILES": 1 if quick else 3, "VERIF_RANDOM": 10 if quick else 150, "VERIF_RANDOM_LEN": 60}
-    if not quick:
-        env["VERIF_TAIL"] = int(os.environ.get("VERIF_C15_TAIL", "3"))
+    # 3. code -> spec: lookups on seeded random rings (PartitionRingCheck.tla) and every CAS of real lifecyclers +
+    #    editor on one in-memory store (PartitionRingTrace.tla)
+    env = {"VERIF_N": 40 if quick else 200, "VERIF_TAIL": 2, "VERIF_ALPHA": "small" if quick else "full",
+           "VERIF_PROFILES": 1 if quick else 3, "VERIF_RANDOM": 10 if quick else 150, "VERIF_RANDOM_LEN": 60}
+    if selftest == "corrupt-ring":
+        env["VERIF_CORRUPT_RING"] = 7
     if selftest == "corrupt-trace":
-        env["VERIF_CORRUPT"] = 777
+        env["VERIF_CORRUPT"] = int(os.environ.get("VERIF_C15_CORRUPT_AT", 777))
     if selftest == "drop-trace":
-        env["VERIF_DROP"] = 778
-    res, accepted, rejected = record_and_validate(ctx, env, "run1")
+        env["VERIF_DROP"] = int(os.environ.get("VERIF_C15_CORRUPT_AT", 778))
+    res, accepted, rejected = record_and_validate(ctx, env, "run1") if "record" in stages else ({}, 0, [])
     if rejected:
         # triage (DESIGN 1.4): record once more with the same seed; only a rejection that repeats is a violation
         res2, accepted2, rejected2 = record_and_validate(ctx, env, "run2")
         sigs2 = {m["sig"] for m in rejected2}
         repeat = [m for m in rejected if m["sig"] in sigs2]
         if not repeat:
-            incon("trace rejection did not repeat on re-recording (%s)" % rejected[0]["sig"])
+            incon("rejection did not repeat on re-recording (%s)" % rejected[0]["sig"])
         rejected = repeat
     res["cases"] = accepted
-    (res.get("extra") or {}).pop("trace_files", None)
-    ctx.absorb(res, "trace")
+    ctx.absorb(res, "record")
     for m in rejected:
-        ctx.disagreement(m, "trace")
+        ctx.disagreement(m, "record")
+
+    if sm_thread is not None:
+        sm_thread.join()
+        if sm_box.get("exc"):
+            raise sm_box["exc"]
     return "model_checking"
